@@ -76,7 +76,7 @@ func c07Expected(hist []*cargen.Tx, limit int, before, until *solana.Signature) 
 func TestVerifC07(t *testing.T) {
 	rec := ev.New("C07", "paging")
 	defer rec.Flush()
-	rec.Rule("3 epochs x all 125 per-epoch history shapes (0..4 entries each); every (address, limit in {1,2,3,5,12,1000}, before in history+nil, until in history+nil) at reader level (GsfaReaderMultiepoch.GetBeforeUntil) and through JSON-RPC with every non-empty subset of epochs loaded; slot-bounded variant on a slot grid; distinct = (shape, limit, before, until, level, epochs) tuples with a non-empty expected slice")
+	rec.Rule("3 epochs x all 125 per-epoch history shapes (0..4 entries each); every (address, limit in {1,2,3,5,12,1000}, before in history+nil, until in history+nil) at reader level (GsfaReaderMultiepoch.GetBeforeUntil) and through JSON-RPC with every non-empty subset of epochs loaded; slot-bounded variant on a slot grid, over all readers and over the readers the server selects for the range; distinct = (shape, limit, before, until, level, epochs) tuples with a non-empty expected slice")
 	seed := ev.Seed()
 	root := filepath.Join(ev.Scratch(), "c07")
 	os.MkdirAll(root, 0o755)
@@ -345,36 +345,55 @@ func TestVerifC07(t *testing.T) {
 								}
 								rec.Eval(1)
 								c := c07Case{Seed: seed, Level: "slot", Epochs: loadedNums, Address: a.String(), Shape: [3]int{i, j, k}, Limit: 1000, BeforeS: before, UntilS: until}
-								gotM, err := gm.GetBeforeUntilSlot(ctx, a, 1000, before, until, fetcher)
-								if err != nil {
-									rec.Violation("GsfaReaderMultiepoch.GetBeforeUntilSlot/error", fmt.Sprintf("address present in %v: %v", c.Shape, err), c)
-									continue
+								// once over all loaded readers, and (as the streaming server does) over the readers the
+								// server selects for the slot range - repeated, the selection walks a map
+								passes := 1
+								if before > until {
+									passes += ev.Pick(2, 8)
 								}
-								nIn := 0
-								for _, txs := range gotM {
-									for _, tx := range txs {
-										s := uint64(tx.Slot)
-										if s < until || s >= before {
-											sg, _ := tx.Signature()
-											c.Got = []string{sg.String()}
-											rec.Violation("GsfaReaderMultiepoch.GetBeforeUntilSlot/slot-outside-range", fmt.Sprintf("returned a transaction of slot %d for range [%d,%d)", s, until, before), c)
+								for pass := 0; pass < passes; pass++ {
+									rd := gm
+									if pass > 0 {
+										sel, _ := multi.getGsfaReadersInEpochDescendingOrderForSlotRange(ctx, until, before-1)
+										if sel == nil {
+											rec.Violation("MultiEpoch.getGsfaReadersInEpochDescendingOrderForSlotRange/no-reader", fmt.Sprintf("range [%d,%d]", until, before-1), c)
+											break
 										}
-										nIn++
+										rd = sel
+										c.Level = "slot/server-selected-readers"
+										rec.Eval(1)
 									}
-								}
-								wantN := 0
-								for _, tx := range full {
-									if tx.Slot >= until && tx.Slot < before {
-										wantN++
+									gotM, err := rd.GetBeforeUntilSlot(ctx, a, 1000, before, until, fetcher)
+									if err != nil {
+										rec.Violation("GsfaReaderMultiepoch.GetBeforeUntilSlot/error", fmt.Sprintf("address present in %v: %v", c.Shape, err), c)
+										break
 									}
-								}
-								if wantN != nIn && wantN <= 1000 {
-									// "epochs in which the address never appears are skipped": the walk has to go on to the
-									// older epochs, so every in-range transaction of the address must be there (limit 1000)
-									rec.Violation("GsfaReaderMultiepoch.GetBeforeUntilSlot/in-range-transactions-missing", fmt.Sprintf("shape %v epochs %v range [%d,%d): %d transactions returned, %d archived in range", c.Shape, loadedNums, until, before, nIn, wantN), c)
-								}
-								if nIn > 0 {
-									rec.Distinct(fmt.Sprintf("slot/%v/%d%d%d/%d/%d", loadedNums, i, j, k, until, before))
+									nIn := 0
+									for _, txs := range gotM {
+										for _, tx := range txs {
+											s := uint64(tx.Slot)
+											if s < until || s >= before {
+												sg, _ := tx.Signature()
+												c.Got = []string{sg.String()}
+												rec.Violation("GsfaReaderMultiepoch.GetBeforeUntilSlot/slot-outside-range", fmt.Sprintf("returned a transaction of slot %d for range [%d,%d)", s, until, before), c)
+											}
+											nIn++
+										}
+									}
+									wantN := 0
+									for _, tx := range full {
+										if tx.Slot >= until && tx.Slot < before {
+											wantN++
+										}
+									}
+									if wantN != nIn && wantN <= 1000 {
+										// "epochs in which the address never appears are skipped": the walk has to go on to the
+										// older epochs, so every in-range transaction of the address must be there (limit 1000)
+										rec.Violation("GsfaReaderMultiepoch.GetBeforeUntilSlot/in-range-transactions-missing", fmt.Sprintf("shape %v epochs %v range [%d,%d): %d transactions returned, %d archived in range", c.Shape, loadedNums, until, before, nIn, wantN), c)
+									}
+									if nIn > 0 {
+										rec.Distinct(fmt.Sprintf("slot/%v/%d%d%d/%d/%d", loadedNums, i, j, k, until, before))
+									}
 								}
 							}
 						}
